@@ -1,5 +1,6 @@
 //! S2 — actor systems step by step.
 
+pub mod checker_level;
 pub mod identity;
 pub mod lockstep;
 pub mod orl;
@@ -186,7 +187,15 @@ fn reg_report(out: regharness::RegOutcome) -> RunReport {
     RunReport { violations: out.violations, counters: out.counters, signature: out.signature, nontrivial: out.steps >= 3, sim_time_ns: 0, steps: out.steps, case_hashes: vec![out.signature] }
 }
 
+fn ck_report(out: checker_level::CkOutcome) -> RunReport {
+    RunReport { violations: out.violations, counters: out.counters, signature: out.trace_hash, nontrivial: out.states >= 2, sim_time_ns: out.clock, steps: out.steps, case_hashes: vec![] }
+}
+
 pub fn run_case(focus: &str, seed: u64) -> (RunReport, Value) {
+    if focus == "C09" && seed % 6 == 0 {
+        let sc = checker_level::gen_checker(seed);
+        return (ck_report(checker_level::run_checker(&sc)), serde_json::to_value(&sc).unwrap());
+    }
     if focus == "C18" {
         let mut sc = regharness::gen_reg(seed);
         let out = regharness::run_reg(&sc);
@@ -232,6 +241,10 @@ pub fn run_case(focus: &str, seed: u64) -> (RunReport, Value) {
 }
 
 pub fn replay(focus: &str, scenario: &Value) -> Result<RunReport, String> {
+    if scenario.get("dfs").is_some() {
+        let sc: checker_level::CheckerScenario = serde_json::from_value(scenario.clone()).map_err(|e| e.to_string())?;
+        return Ok(ck_report(checker_level::run_checker(&sc)));
+    }
     if focus == "C18" {
         let sc: regharness::RegScenario = serde_json::from_value(scenario.clone()).map_err(|e| e.to_string())?;
         return Ok(reg_report(regharness::run_reg(&sc)));
@@ -251,6 +264,9 @@ pub fn replay(focus: &str, scenario: &Value) -> Result<RunReport, String> {
 }
 
 pub fn summary(scenario: &Value) -> Value {
+    if scenario.get("dfs").is_some() {
+        return serde_json::json!({"checker_level": true, "dfs": scenario["dfs"], "threads": scenario["threads"], "actors": scenario["sys"]["tables"].as_array().map(|a| a.len()), "network": scenario["sys"]["net"], "lossy": scenario["sys"]["lossy"], "max_crashes": scenario["sys"]["max_crashes"], "max_messages_in_flight": scenario["sys"]["hist"]["cap"]});
+    }
     if scenario.get("proto").is_some() {
         let mut s = scenario.clone();
         if let Some(o) = s.as_object_mut() {
@@ -278,6 +294,43 @@ pub fn summary(scenario: &Value) -> Value {
 }
 
 pub fn shrink_candidates(scenario: &Value) -> Vec<Value> {
+    if scenario.get("dfs").is_some() {
+        let Ok(sc) = serde_json::from_value::<checker_level::CheckerScenario>(scenario.clone()) else { return vec![] };
+        let mut out = Vec::new();
+        if sc.threads > 1 {
+            let mut s = sc.clone();
+            s.threads = 1;
+            out.push(s);
+        }
+        for a in 0..sc.sys.tables.len() {
+            for r in 0..sc.sys.tables[a].msg.len() {
+                let mut s = sc.clone();
+                s.sys.tables[a].msg.remove(r);
+                out.push(s);
+            }
+            for r in 0..sc.sys.tables[a].timer.len() {
+                let mut s = sc.clone();
+                s.sys.tables[a].timer.remove(r);
+                out.push(s);
+            }
+            for r in 0..sc.sys.tables[a].random.len() {
+                let mut s = sc.clone();
+                s.sys.tables[a].random.remove(r);
+                out.push(s);
+            }
+            for r in 0..sc.sys.tables[a].start.len() {
+                let mut s = sc.clone();
+                s.sys.tables[a].start.remove(r);
+                out.push(s);
+            }
+        }
+        if sc.sys.tables.len() > 1 {
+            let mut s = sc.clone();
+            s.sys.tables.pop();
+            out.push(s);
+        }
+        return out.into_iter().map(|s| serde_json::to_value(&s).unwrap()).collect();
+    }
     if scenario.get("proto").is_some() {
         let Ok(sc) = serde_json::from_value::<regharness::RegScenario>(scenario.clone()) else { return vec![] };
         let mut out = Vec::new();
